@@ -22,7 +22,7 @@ CLAIMS = {
                 "recursion into the predecessor; the wrapper marks the receiver on every normal path; the warning is printed "
                 "only under _obsolete and not _obsolete_warned and every printing path sets the flag; every list sharing items is "
                 "built by self._new, the sole writer of _predecessor; deepcopy yields fresh items and no predecessor. Decides the "
-                "discipline that makes the behaviour hold for all histories; not the caller-side timing of the warning. Added later: ListOfDicts methods assign only the bookkeeping attributes (no item-derived caches); the predecessor link is tested by identity/instance, never truthiness; the name guard of __getattribute__ is evaluated as a string predicate on every attribute name the class looks up on itself. Round 7: attribute stores on an argument list (caches on the other list of a join) are judged like those on the receiver. Round 8: copy() of an item of unknown kind is shallow for the deepcopy rule. Round 9: language-trap lints (one-shot iterators consumed twice, closures over loop variables, mutable defaults, fromkeys with a mutable value, starred itemgetter results used as sequences) over the property's anchor files. Round 10: deepcopy does not share a memo between the items.",
+                "discipline that makes the behaviour hold for all histories; not the caller-side timing of the warning. Added later: ListOfDicts methods assign only the bookkeeping attributes (no item-derived caches); the predecessor link is tested by identity/instance, never truthiness; the name guard of __getattribute__ is evaluated as a string predicate on every attribute name the class looks up on itself. Round 7: attribute stores on an argument list (caches on the other list of a join) are judged like those on the receiver. Round 8: copy() of an item of unknown kind is shallow for the deepcopy rule. Round 9: language-trap lints (one-shot iterators consumed twice, closures over loop variables, mutable defaults, fromkeys with a mutable value, starred itemgetter results used as sequences) over the property's anchor files. Round 10: deepcopy does not share a memo between the items. Round 11: the marking method itself is exempt from the warning guard (its lookup on a predecessor is not the user's next use); the iterative form of the marking walk is read in one exact shape.",
         "note": TRUST,
         "technique": "abstract interpretation of write effects on item-dict origins + CFG dominator/post-dominator typestate rules on the flags",
     },
@@ -30,7 +30,7 @@ CLAIMS = {
         "text": "Alias clause decided exactly for all argument combinations: each io.py function declared an alias (via "
                 "format_alias_doc) has the target's signature and forwards every parameter under its own name in a single call "
                 "on every path. Restriction clause decided structurally: liveness and by-name use of columns/keys/dtypes/types in "
-                "all readers and order provenance at positional labelling sites. Not decided: cast-after-read == cast-while-read. Added later: membership filters on the restriction parameter keep the elements IN it; each (name, type) pair of a type map reaches a conversion; parsed Python lists are cast through the converting constructor; liveness counts only effective uses (a self-reassignment is not a use). Round 7: no argument of a foreign parsing call depends on the dtype map; field order inside rows is tracked through itemgetter(*indices). Round 8: `if columns:` tests the restriction argument as given. Round 9: language-trap lints (one-shot iterators consumed twice, closures over loop variables, mutable defaults, fromkeys with a mutable value, starred itemgetter results used as sequences) over the property's anchor files. Round 10: names.index(x) in a reader (first of a duplicated header name).",
+                "all readers and order provenance at positional labelling sites. Not decided: cast-after-read == cast-while-read. Added later: membership filters on the restriction parameter keep the elements IN it; each (name, type) pair of a type map reaches a conversion; parsed Python lists are cast through the converting constructor; liveness counts only effective uses (a self-reassignment is not a use). Round 7: no argument of a foreign parsing call depends on the dtype map; field order inside rows is tracked through itemgetter(*indices). Round 8: `if columns:` tests the restriction argument as given. Round 9: language-trap lints (one-shot iterators consumed twice, closures over loop variables, mutable defaults, fromkeys with a mutable value, starred itemgetter results used as sequences) over the property's anchor files. Round 10: names.index(x) in a reader (first of a duplicated header name). Round 11: a raise that depends on the restriction parameter validates against the complete column set (RESTR-raise); the itemgetter lint as in C12.",
         "note": TRUST,
         "technique": "signature comparison + keyword-forwarding analysis + order-provenance dataflow over reaching definitions",
     },
@@ -39,7 +39,7 @@ CLAIMS = {
                 "dispatched entry points, no write effect on the rendered object in the rendering call graph, every identity-less "
                 "reduction reachable from an entry point guarded against empty operands (obligation moved to call sites for helper "
                 "parameters, also through local function aliases), null-geometry accesses guarded, cell lists padded. Not decided: "
-                "exact widths/wording. Added later: print_ and the renderers use every option they accept; util.upad measures display width only; strict-JSON dumps reachable from rendering are partial operations. Round 7: memo tables keyed by a lossy projection of the dtype in the rendering functions. Round 9: language-trap lints (one-shot iterators consumed twice, closures over loop variables, mutable defaults, fromkeys with a mutable value, starred itemgetter results used as sequences) over the property's anchor files. Round 10: the first line of a split cell is read only under a dominating test about the cell.",
+                "exact widths/wording. Added later: print_ and the renderers use every option they accept; util.upad measures display width only; strict-JSON dumps reachable from rendering are partial operations. Round 7: memo tables keyed by a lossy projection of the dtype in the rendering functions. Round 9: language-trap lints (one-shot iterators consumed twice, closures over loop variables, mutable defaults, fromkeys with a mutable value, starred itemgetter results used as sequences) over the property's anchor files. Round 10: the first line of a split cell is read only under a dominating test about the cell. Round 11: no tolist() export (missing -> None) on the way to util.upad (GRD-text).",
         "note": TRUST,
         "technique": "override-compatibility + effect analysis + guard-dominates-partial-operation (CFG must-facts) + nullable-source rule",
     },
@@ -47,14 +47,14 @@ CLAIMS = {
         "text": "Necessary conditions of Vector.sort/rank/unique for all inputs: stable sort kinds, missing-last assembly with the "
                 "mask computed from the final vector on every exit, every rank branch fills both partitions and unknown methods "
                 "raise, first-occurrence indices sorted, and totality on empty / entirely missing vectors (reductions guarded, "
-                "fixed-width cast width >= 1 by interval analysis). Not decided: that the ranks are the right numbers. Added later: the rank of missing values is built on the number of non-missing elements (or the total length); every result of sort depends on dir. Round 9: language-trap lints (one-shot iterators consumed twice, closures over loop variables, mutable defaults, fromkeys with a mutable value, starred itemgetter results used as sequences) over the property's anchor files. De-duplication by hashing (NaN != NaN) in Vector.unique. Round 10: rank returns an empty result only for an empty vector.",
+                "fixed-width cast width >= 1 by interval analysis). Not decided: that the ranks are the right numbers. Added later: the rank of missing values is built on the number of non-missing elements (or the total length); every result of sort depends on dir. Round 9: language-trap lints (one-shot iterators consumed twice, closures over loop variables, mutable defaults, fromkeys with a mutable value, starred itemgetter results used as sequences) over the property's anchor files. De-duplication by hashing (NaN != NaN) in Vector.unique. Round 10: rank returns an empty result only for an empty vector. Round 11: the array-API spellings np.unique_all & co. (equal_nan=False) and equal_nan=False are reported; Vector.rank orders the values themselves.",
         "note": TRUST,
         "technique": "CFG must-facts + tiny interval domain for guards; def-use rules for stability and NA-last structure",
     },
     "C03": {
         "text": "Necessary conditions of DataFrame.sort for all inputs: a single lexsort permutation indexes all columns, keys "
                 "reach lexsort in reversed user order, rank fallback is method='min', directions validated before use, key "
-                "construction total on empty/all-missing columns and free of writes on the receiver. Not decided: the order itself. Added later: a dtype-class dataflow over sort_key judges each negation / complement / conversion of a key against the element types on which it keeps all order relations (NumPy fact: timedelta64 is an integer), the requested direction is applied by exactly one reversal, and fixed-width string keys get a maximal sentinel for their missing values. Round 7: _optimize_for_argsort casts only within the string family (is_na must still see ''). Round 9: language-trap lints (one-shot iterators consumed twice, closures over loop variables, mutable defaults, fromkeys with a mutable value, starred itemgetter results used as sequences) over the property's anchor files.",
+                "construction total on empty/all-missing columns and free of writes on the receiver. Not decided: the order itself. Added later: a dtype-class dataflow over sort_key judges each negation / complement / conversion of a key against the element types on which it keeps all order relations (NumPy fact: timedelta64 is an integer), the requested direction is applied by exactly one reversal, and fixed-width string keys get a maximal sentinel for their missing values. Round 7: _optimize_for_argsort casts only within the string family (is_na must still see ''). Round 9: language-trap lints (one-shot iterators consumed twice, closures over loop variables, mutable defaults, fromkeys with a mutable value, starred itemgetter results used as sequences) over the property's anchor files. Round 11: no string constant stands for the missing values of a string sort key, and -- dtype-class dataflow under the hypothesis that the key has missing values -- no string-class key reaches a return of sort_key unranked (D33); Vector.rank orders the values themselves, never their text.",
         "note": TRUST,
         "technique": "loop-invariant index rule, def-use on the lexsort argument, must-facts for direction validation, guard and effect engines",
     },
@@ -63,7 +63,7 @@ CLAIMS = {
                 "the right keep/drop operator, filter/filter_out sibling agreement against the statement's semantics, drop_na "
                 "any-column accumulation, clamping in head/tail/sample, order-preserving sample, NA mask as its own key "
                 "component in unique (sentinel soundness under IEEE-754), totality on 0-row frames, mask length check. Not "
-                "decided: which rows a given mask selects. Added later: no subsetting method reads the grouping state of an earlier group_by(); default counts replace only a count that was not given; column-position parsers mirror the row-position parsers; every element type whose missing value is not self-equal (NaN, NaT of dates and of timedeltas) is normalised in unique's key tuples. Round 7: np.diff of a key as a sortedness test is judged by the dtype-class dataflow (wraps on integers); key columns are never stacked into one array (common-dtype promotion). Round 9: language-trap lints (one-shot iterators consumed twice, closures over loop variables, mutable defaults, fromkeys with a mutable value, starred itemgetter results used as sequences) over the property's anchor files. The constant substituted for missing keys in unique is not itself missing. Round 10: the boolean-row parser states bool; drop_na iterates the names as given and raises nothing itself; masks built from lists state their dtype.",
+                "decided: which rows a given mask selects. Added later: no subsetting method reads the grouping state of an earlier group_by(); default counts replace only a count that was not given; column-position parsers mirror the row-position parsers; every element type whose missing value is not self-equal (NaN, NaT of dates and of timedeltas) is normalised in unique's key tuples. Round 7: np.diff of a key as a sortedness test is judged by the dtype-class dataflow (wraps on integers); key columns are never stacked into one array (common-dtype promotion). Round 9: language-trap lints (one-shot iterators consumed twice, closures over loop variables, mutable defaults, fromkeys with a mutable value, starred itemgetter results used as sequences) over the property's anchor files. The constant substituted for missing keys in unique is not itself missing. Round 10: the boolean-row parser states bool; drop_na iterates the names as given and raises nothing itself; masks built from lists state their dtype. Round 11: colname=value pairs of filter / filter_out are compared as given (no cast to the column's dtype); key columns of unique are not compared through an integer view (bit patterns).",
         "note": TRUST,
         "technique": "sibling feature records vs spec table, loop-invariant index rule, clamp-dominates-use, sentinel/mask dataflow, guard engine",
     },
@@ -73,7 +73,7 @@ CLAIMS = {
                 "stores only reconciled columns; base-class storage primitives occur only in the six writer methods and unchecked row "
                 "views never escape; generator methods return through the checked constructor; key/attribute bookkeeping is paired on "
                 "add and remove under satisfiable guards; colnames assignment is two-phase; vectors check ndim. Decides that "
-                "rectangularity and key/attribute coherence are preserved by every operation, not that stored values are right. Since the mutation sweep also: the removers delete the placeholder attribute under guards of the right polarity. Round 7: the name reaching dict.__setitem__ is the key argument itself. Round 9: language-trap lints (one-shot iterators consumed twice, closures over loop variables, mutable defaults, fromkeys with a mutable value, starred itemgetter results used as sequences) over the property's anchor files. Round 10: the attribute placeholder is registered only after the value passed reconciliation.",
+                "rectangularity and key/attribute coherence are preserved by every operation, not that stored values are right. Since the mutation sweep also: the removers delete the placeholder attribute under guards of the right polarity. Round 7: the name reaching dict.__setitem__ is the key argument itself. Round 9: language-trap lints (one-shot iterators consumed twice, closures over loop variables, mutable defaults, fromkeys with a mutable value, starred itemgetter results used as sequences) over the property's anchor files. Round 10: the attribute placeholder is registered only after the value passed reconciliation. Round 11: the broadcast guard of DataFrameColumn.__new__ is evaluated exactly on a (length, nrow) grid (only length 1 reaches the repeat); np.isscalar decides scalar-ness only next to an isinstance test over str (util.py is read too).",
         "note": TRUST,
         "technique": "must-pass-through and guard-dominates-site rules on per-function CFGs, who-may-call over resolved callees, store-separation reasoning, escape check via the E3 interpreter",
     },
@@ -82,7 +82,7 @@ CLAIMS = {
                 "on the right keys) at all four sites that build the key->row dict, agreement of the four joins, whole-row indexing "
                 "with corresponding found/src pairs and complementary semi/anti operators, NA value/dtype taken from one column, no "
                 "scalar broadcast to a possibly zero row count, by-tuple handling of renamed keys incl. the reverse join of full_join, "
-                "totality of reachable reductions on empty operands. Not decided: which rows match. Added later: the typestate is interprocedural (required where the key->row dict is built), a join taking right-hand values by row number indexes the very frame the dict was built over, one-element literals are broadcast only to provably >= 1 rows, full_join skips its reverse part only when nothing is left over and hands on swapped by-pairs as sequences. Round 8: every return of _get_join_indices follows the key->row lookup unless a side has no rows. Round 9: language-trap lints (one-shot iterators consumed twice, closures over loop variables, mutable defaults, fromkeys with a mutable value, starred itemgetter results used as sequences) over the property's anchor files. Round 10: _get_join_indices raises nothing itself; masks built from lists state their dtype.",
+                "totality of reachable reductions on empty operands. Not decided: which rows match. Added later: the typestate is interprocedural (required where the key->row dict is built), a join taking right-hand values by row number indexes the very frame the dict was built over, one-element literals are broadcast only to provably >= 1 rows, full_join skips its reverse part only when nothing is left over and hands on swapped by-pairs as sequences. Round 8: every return of _get_join_indices follows the key->row lookup unless a side has no rows. Round 9: language-trap lints (one-shot iterators consumed twice, closures over loop variables, mutable defaults, fromkeys with a mutable value, starred itemgetter results used as sequences) over the property's anchor files. Round 10: _get_join_indices raises nothing itself; masks built from lists state their dtype. Round 11: the match positions index a column only through the found mask (GRD-src); the key columns enter the lookup unconverted.",
         "note": TRUST,
         "technique": "typestate over def-use chains at call sites, sibling agreement, interval lower bounds for broadcast counts, guard engine",
     },
@@ -90,7 +90,7 @@ CLAIMS = {
         "text": "Routing/symmetry of every reader-writer pair decided for all paths and suffixes: where the user's path flows (only "
                 "xopen, makedirs, delegated siblings, or APIs in the external summary table), which file is addressed, and whether "
                 "data is (de)compressed for '', .gz, .bz2, .xz -- writer and reader must agree and honour their docstrings; xopen's "
-                "suffix table; liveness of every option on both sides. Not decided: equality of values after the trip. Added later: every opener in xopen receives **kwargs; every xopen call names its text/binary class; the ListOfDicts CSV reader and writer agree on every parsing-relevant formatting parameter; the re-encoding pass of write_csv has the right polarity, re-opens with the requested encoding and writes back what it read. Round 8: rows returned by csv.reader are not filtered by their contents. Round 9: language-trap lints (one-shot iterators consumed twice, closures over loop variables, mutable defaults, fromkeys with a mutable value, starred itemgetter results used as sequences) over the property's anchor files. Round 10: content filters directly over csv.reader.",
+                "suffix table; liveness of every option on both sides. Not decided: equality of values after the trip. Added later: every opener in xopen receives **kwargs; every xopen call names its text/binary class; the ListOfDicts CSV reader and writer agree on every parsing-relevant formatting parameter; the re-encoding pass of write_csv has the right polarity, re-opens with the requested encoding and writes back what it read. Round 8: rows returned by csv.reader are not filtered by their contents. Round 9: language-trap lints (one-shot iterators consumed twice, closures over loop variables, mutable defaults, fromkeys with a mutable value, starred itemgetter results used as sequences) over the property's anchor files. Round 10: content filters directly over csv.reader. Round 11: the itemgetter(*names) lint follows one level of local flow and knows writerow / extend / join as sequence consumers.",
         "note": TRUST,
         "technique": "taint-style path routing over resolved callees with an external summary table; option liveness; sibling agreement of csv dialect/delimiter",
     },
@@ -99,7 +99,7 @@ CLAIMS = {
                 "ordering primitive is the stable lexsort, index vectors are created on and applied to the frame they index with the "
                 "attach/sort ordering that makes split return original positions, group-aware protocol on the DataFrame side "
                 "(_group_ labels from the same indices, None -> default, helper columns removed), run scan of yield_groups, count on a "
-                "copy, order restoration in grouped modify, per-column NA masks as key components in unique. Not decided: summary values. Added later: every (name, function) pair stores a column on every path of aggregate's loop, unmarked functions are not group-aware, the per-group frames exist before an arbitrary function is applied. Round 9: language-trap lints (one-shot iterators consumed twice, closures over loop variables, mutable defaults, fromkeys with a mutable value, starred itemgetter results used as sequences) over the property's anchor files.",
+                "copy, order restoration in grouped modify, per-column NA masks as key components in unique. Not decided: summary values. Added later: every (name, function) pair stores a column on every path of aggregate's loop, unmarked functions are not group-aware, the per-group frames exist before an arbitrary function is applied. Round 9: language-trap lints (one-shot iterators consumed twice, closures over loop variables, mutable defaults, fromkeys with a mutable value, starred itemgetter results used as sequences) over the property's anchor files. Round 11: Vector.rank orders the values themselves, never their text; unique's keys are not bit patterns.",
         "note": TRUST,
         "technique": "statement-order and def-use rules (index-space discipline), must-facts for the protocol, effect analysis for count, guard engine",
     },
@@ -108,7 +108,7 @@ CLAIMS = {
                 "copied from the statement: minimum group size, under-threshold default, statistic and extra arguments, NA wiring "
                 "(handle_na before any length test; drop_na and is_na().any() of the aggregated column; all/any unfiltered), "
                 "identity-less statistics never bound with nrequired=0, protocol attributes set on every path, first/last = nth(0/-1). "
-                "Decides that the documented default/threshold/NA policy is wired identically in both forms, not the numbers. Added later: every extra statistic argument (ddof) reaches the statistic in every case of both forms (a case taken only for the library default counts as passing it); memoising decorators key on all arguments. Round 7: np.nan_to_num without posinf=/neginf= is not a missing-value substitution. Round 8: exits that skip missing-value handling under an element-type test (timedelta64 is an integer), np.bincount weights, np.unique tie-breaking in mode, explicit index-bounds shortcuts decided exactly (sa/intpred.py). Round 9: language-trap lints (one-shot iterators consumed twice, closures over loop variables, mutable defaults, fromkeys with a mutable value, starred itemgetter results used as sequences) over the property's anchor files. Positional kernels without try/except are decided exactly (position selection, sa/intpred.py). Round 10: an explicit validation of q rejects no value of [0, 1] (decided exactly); masks built from lists state their dtype.",
+                "Decides that the documented default/threshold/NA policy is wired identically in both forms, not the numbers. Added later: every extra statistic argument (ddof) reaches the statistic in every case of both forms (a case taken only for the library default counts as passing it); memoising decorators key on all arguments. Round 7: np.nan_to_num without posinf=/neginf= is not a missing-value substitution. Round 8: exits that skip missing-value handling under an element-type test (timedelta64 is an integer), np.bincount weights, np.unique tie-breaking in mode, explicit index-bounds shortcuts decided exactly (sa/intpred.py). Round 9: language-trap lints (one-shot iterators consumed twice, closures over loop variables, mutable defaults, fromkeys with a mutable value, starred itemgetter results used as sequences) over the property's anchor files. Positional kernels without try/except are decided exactly (position selection, sa/intpred.py). Round 10: an explicit validation of q rejects no value of [0, 1] (decided exactly); masks built from lists state their dtype. Round 11: np.sum(x).item() is guarded like the element-valued results (D34); np.unique without index/inverse/counts is not applied to a Vector (its sort() is not in place).",
         "note": TRUST,
         "technique": "sibling feature-record extraction by ast dataflow + comparison against a spec table; CFG must-pass-through for protocol attributes",
     },
@@ -121,7 +121,7 @@ CLAIMS = {
                 "returns a list mixing element values with None (list(Optional(T))), whose conversion depends on compile order with "
                 "the Numba installed here -- violated at four sites of the pinned tree, recorded as known finding D25 with the failing "
                 "histories. NOT decided: numerical equality of NumPy vs Numba re-implementations (e.g. the mode loops), rounding, the "
-                "on-disk cache. Round 7: no call or keyword dict sets overwrite_input (the Python statistic would reorder the shared column, the compiled twin copies). Round 8: dtype conversions applied on the compiled path only are value-preserving for every class that reaches them. Round 9: language-trap lints (one-shot iterators consumed twice, closures over loop variables, mutable defaults, fromkeys with a mutable value, starred itemgetter results used as sequences) over the property's anchor files. Positional kernels without try/except are decided exactly (position selection, sa/intpred.py). Round 10: the compiled mode kernel counts an element for itself (NaN / NaT are not equal to themselves) -- D29, repaired.",
+                "on-disk cache. Round 7: no call or keyword dict sets overwrite_input (the Python statistic would reorder the shared column, the compiled twin copies). Round 8: dtype conversions applied on the compiled path only are value-preserving for every class that reaches them. Round 9: language-trap lints (one-shot iterators consumed twice, closures over loop variables, mutable defaults, fromkeys with a mutable value, starred itemgetter results used as sequences) over the property's anchor files. Positional kernels without try/except are decided exactly (position selection, sa/intpred.py). Round 10: the compiled mode kernel counts an element for itself (NaN / NaT are not equal to themselves) -- D29, repaired. Round 11: UNIFY -- for every element kind use_numba() admits, the result of a generic_numba statistic unifies with the kernel default (timedelta did not: D35).",
         "note": TRUST + " The history clause is decided only through the Optional-list condition, which was established by a probe "
                 "(notes/numba_optional_lists.md); other compile-order effects, if any, are outside this technique.",
         "technique": "twin feature-record comparison over the ast, decorator/registry rules, dtype-kind evaluation of use_numba against "
@@ -131,7 +131,7 @@ CLAIMS = {
         "text": "Necessary conditions of rbind/select/unselect/rename/cbind/update/modify/colnames assignment for all inputs: two-phase "
                 "rename, rbind over every input in argument order with an order-preserving union of names and NA parts built from one "
                 "reference column at the lacking input's row count, name-value provenance in select/rename/unselect, first-wins / "
-                "replace semantics of cbind/update/modify, untouched columns yielded whole. Not decided: NumPy promotion. Round 7: modify hands on every existing column unconditionally. Round 8: the colnames setter pops all columns; rename rejects no request because a name already exists. Round 9: language-trap lints (one-shot iterators consumed twice, closures over loop variables, mutable defaults, fromkeys with a mutable value, starred itemgetter results used as sequences) over the property's anchor files.",
+                "replace semantics of cbind/update/modify, untouched columns yielded whole. Not decided: NumPy promotion. Round 7: modify hands on every existing column unconditionally. Round 8: the colnames setter pops all columns; rename rejects no request because a name already exists. Round 9: language-trap lints (one-shot iterators consumed twice, closures over loop variables, mutable defaults, fromkeys with a mutable value, starred itemgetter results used as sequences) over the property's anchor files. Round 11: the union-of-names idiom of rbind is read in its chain.from_iterable / comprehension spellings too.",
         "note": TRUST,
         "technique": "def-use and loop-structure rules per method (name/value provenance), sibling NA-pair rule, loop-carried hazard rule",
     },
@@ -158,7 +158,7 @@ CLAIMS = {
                 "pass, clamping and no possibly-zero negated slice bound in head/tail/sample, insert delivers its item on every CFG path, "
                 "caller-supplied dicts are coerced before reaching the as-is constructor, sort is multi-pass stable with reversed key "
                 "order / reverse=dir<0 / None-flag keys / validated directions, unique yields under a not-seen guard that records the key. "
-                "Not decided: full sequence equality with list operations. Added later: the constructor converts every item unless the caller passes as_is; unique records the key values themselves (no lossy reduction); guard-clause forms accepted. Round 7: every returning path of a decorator wrapper calls the wrapped function; fill_missing_keys yields only after the fill loop or under a nothing-missing test. Round 8: per-call memos keyed by an order-blind summary; the index of insert reaches list.insert unadjusted. Round 9: language-trap lints (one-shot iterators consumed twice, closures over loop variables, mutable defaults, fromkeys with a mutable value, starred itemgetter results used as sequences) over the property's anchor files. Round 10: an explicit validation of insert's index rejects no integer (decided exactly).",
+                "Not decided: full sequence equality with list operations. Added later: the constructor converts every item unless the caller passes as_is; unique records the key values themselves (no lossy reduction); guard-clause forms accepted. Round 7: every returning path of a decorator wrapper calls the wrapped function; fill_missing_keys yields only after the fill loop or under a nothing-missing test. Round 8: per-call memos keyed by an order-blind summary; the index of insert reaches list.insert unadjusted. Round 9: language-trap lints (one-shot iterators consumed twice, closures over loop variables, mutable defaults, fromkeys with a mutable value, starred itemgetter results used as sequences) over the property's anchor files. Round 10: an explicit validation of insert's index rejects no integer (decided exactly). Round 11: the component of the sort key after the None flag is the value itself.",
         "note": TRUST,
         "technique": "CFG path rule (must-yield), interval lower bounds for slice bounds, branch-fact sibling comparison, coercion-idiom typestate",
     },
@@ -166,7 +166,7 @@ CLAIMS = {
         "text": "Necessary conditions of ListOfDicts joins/aggregate for all inputs: first-match lookup built over reversed(other), "
                 "inner/left twins strip right-hand key names and update only the left item with a fresh dict (no write effect on the "
                 "right operand), semi/anti complementary tests on one id set, full_join's reverse join gets role-swapped by-tuples and "
-                "unused right items are found by synthetic id, aggregate groups/buckets/sort use one key extraction. Not decided: which items match. Added later: full_join skips its reverse part only when no right item is left over, renames differently named keys in the reverse part and hands on swapped by-pairs as sequences. Round 8: every exit of semi_join / anti_join follows the id set. Round 9: language-trap lints (one-shot iterators consumed twice, closures over loop variables, mutable defaults, fromkeys with a mutable value, starred itemgetter results used as sequences) over the property's anchor files. Round 10: group_by raises nothing itself.",
+                "unused right items are found by synthetic id, aggregate groups/buckets/sort use one key extraction. Not decided: which items match. Added later: full_join skips its reverse part only when no right item is left over, renames differently named keys in the reverse part and hands on swapped by-pairs as sequences. Round 8: every exit of semi_join / anti_join follows the id set. Round 9: language-trap lints (one-shot iterators consumed twice, closures over loop variables, mutable defaults, fromkeys with a mutable value, starred itemgetter results used as sequences) over the property's anchor files. Round 10: group_by raises nothing itself. Round 11: the ListOfDicts.sort rule (ORD-sort) is part of this check, since aggregate orders its groups with it.",
         "note": TRUST,
         "technique": "def-use rules on lookup construction, sibling comparison, effect analysis (E3) for the right operand, operand-role rule for full_join",
     },
@@ -174,7 +174,7 @@ CLAIMS = {
         "text": "Hand-assembled GeoJSON writer and reader: every dynamic text fragment written is json.dumps output, an indent or a "
                 "literal choice (injection-style taint rule); writer/reader member-name agreement incl. FEATURE_KEYS/FEATURE_TYPES and "
                 "'features'; all metadata members written, only 'features' removed on read; property columns = union of keys filled "
-                "with .get(key, None) from one feature sequence in file order; option liveness. Not decided: value fidelity. Round 8: every return of read() follows the metadata assignment. Round 9: language-trap lints (one-shot iterators consumed twice, closures over loop variables, mutable defaults, fromkeys with a mutable value, starred itemgetter results used as sequences) over the property's anchor files. The separator between features is chosen by position.",
+                "with .get(key, None) from one feature sequence in file order; option liveness. Not decided: value fidelity. Round 8: every return of read() follows the metadata assignment. Round 9: language-trap lints (one-shot iterators consumed twice, closures over loop variables, mutable defaults, fromkeys with a mutable value, starred itemgetter results used as sequences) over the property's anchor files. The separator between features is chosen by position. Round 11: column building delegated to ListOfDicts._to_columns is judged by where that helper takes its keys from.",
         "note": TRUST,
         "technique": "taint classification of f-string fragments over reaching definitions; writer/reader sibling agreement on literal member names",
     },
@@ -183,7 +183,7 @@ CLAIMS = {
                 "right parameter and are complete; each regex function calls re.<own name> identically in scalar and vector branch "
                 "over the non-missing positions; each dt extractor reads the datetime member of its own name (kind from the stdlib); "
                 "the _pull_* helpers share one skeleton; np.vectorize applications are dominated by the all-missing early return; early "
-                "returns convert like the final return. Not decided: calendar arithmetic, strftime/regex semantics. Added later: from_string narrows to dates only when every time-of-day extractor (hour, minute, second, microsecond) is zero for all parsed values. Round 7: every return of a regex function's vector branch hands back the default-filled (or NA-masked) array. Round 8: every result of dt.to_string is produced by strftime. Round 9: language-trap lints (one-shot iterators consumed twice, closures over loop variables, mutable defaults, fromkeys with a mutable value, starred itemgetter results used as sequences) over the property's anchor files. Vector arguments of dt.replace are read at the row's own position. Round 10: the .dt / .re / .str properties raise nothing themselves.",
+                "returns convert like the final return. Not decided: calendar arithmetic, strftime/regex semantics. Added later: from_string narrows to dates only when every time-of-day extractor (hour, minute, second, microsecond) is zero for all parsed values. Round 7: every return of a regex function's vector branch hands back the default-filled (or NA-masked) array. Round 8: every result of dt.to_string is produced by strftime. Round 9: language-trap lints (one-shot iterators consumed twice, closures over loop variables, mutable defaults, fromkeys with a mutable value, starred itemgetter results used as sequences) over the property's anchor files. Vector arguments of dt.replace are read at the row's own position. Round 10: the .dt / .re / .str properties raise nothing themselves. Round 11: the date-narrowing test of from_string looks at the parsed values, never at the format text alone; stored results lead back to x[~na] through every definition.",
         "note": TRUST,
         "technique": "registry/forwarding rules, sibling skeleton comparison, guard-dominates-partial-operation, must-convert-on-every-return rule",
     },
